@@ -1,3 +1,5 @@
+//go:build verif
+
 // Package sched turns go9p's verif hook into an ordering-constraint
 // controller: "the goroutine handling request A stops at point P until the
 // goroutine handling request B has passed point Q".
